@@ -17,6 +17,7 @@ type Case struct {
 	Boxes []string `json:"boxes"`
 	Ops   []hx.Op  `json:"ops"`
 	ScanK []int    `json:"scan_k"` // cutoff offsets used by successive scan ops
+	Caps  []int    `json:"caps"`   // the cap each successive reopen is configured with (the server may be restarted with another setting)
 }
 
 var kinds = []string{"add", "add", "add", "add", "get", "list", "seen", "seen", "remove", "remove", "purge", "visit", "reopen", "reopen", "scan"}
@@ -35,6 +36,7 @@ var prop = hx.Prop[Case]{
 			Boxes: hx.BoxesGen(3, 5).Draw(t, "boxes"),
 			Ops:   rapid.SliceOfN(hx.OpGen(kinds), 10, 60).Draw(t, "ops"),
 			ScanK: rapid.SliceOfN(rapid.IntRange(-100000000, 100000000), 4, 4).Draw(t, "scank"),
+			Caps:  rapid.SliceOfN(rapid.SampledFrom([]int{-1, -1, -1, 0, 1, 2, 3}), 4, 4).Draw(t, "caps"),
 		}
 	},
 	Run: run,
@@ -45,12 +47,22 @@ func run(c Case) *hx.Outcome {
 	dir := hx.TempDir()
 	defer os.RemoveAll(dir)
 	s := &hx.Sys{Name: "file", Store: hx.NewFile(extension.NewHost(), dir, c.Cap), Model: hx.NewModel(c.Cap, 0), Boxes: c.Boxes}
+	curCap := c.Cap
 	var added, seen, cleared, reopenedAfterAll, nt bool
 	reopens, scans := 0, 0
 	for i, op := range c.Ops {
 		switch op.K {
 		case "reopen":
-			s.Store = hx.NewFile(extension.NewHost(), dir, c.Cap)
+			// -1 = same cap as before; otherwise the restarted server has a new setting, which takes
+			// effect at the next delivery (the model evicts the oldest down to the cap then)
+			if len(c.Caps) > 0 {
+				if nc := c.Caps[reopens%len(c.Caps)]; nc >= 0 {
+					curCap = nc
+					s.Model.Cap = nc
+					o.Class("reopened with a different cap")
+				}
+			}
+			s.Store = hx.NewFile(extension.NewHost(), dir, curCap)
 			reopens++
 			if added && seen && cleared {
 				reopenedAfterAll = true
